@@ -30,10 +30,10 @@ static LD const TINY_ = 2.2250738585072014e-308L;
 #define VP_K 32
 #endif
 
-enum { L_FIELD, L_POWLOG, L_TRIG, L_ITRIG, L_HYP, L_IHYP, L_REALARG, L_PAIRS, L_Q1, L_Q2, L_Q3, L_Q4, L_NEAR_AXIS, L_ON_AXIS, L_SMALL, L_LARGE, L_NEAR_SWITCH, L_PUSHED_OFF_CUT, L_WIDE_MODULUS, L_ALGO_CORNER, L_LINKED, L_ORIGIN };
+enum { L_FIELD, L_POWLOG, L_TRIG, L_ITRIG, L_HYP, L_IHYP, L_REALARG, L_PAIRS, L_Q1, L_Q2, L_Q3, L_Q4, L_NEAR_AXIS, L_ON_AXIS, L_SMALL, L_LARGE, L_NEAR_SWITCH, L_PUSHED_OFF_CUT, L_WIDE_MODULUS, L_ALGO_CORNER, L_LINKED, L_ORIGIN, L_BIG_EXPONENT };
 static char const *const labels[] = {"field_arithmetic", "sqrt_pow_exp_log", "trigonometric", "inverse_trigonometric", "hyperbolic", "inverse_hyperbolic", "real_argument_variants",
                                      "inverse_pairs", "quadrant_1", "quadrant_2", "quadrant_3", "quadrant_4", "near_axis", "exactly_on_axis", "modulus_lt_0.5", "modulus_gt_2",
-                                     "modulus_near_formula_switch", "moved_off_branch_cut", "modulus_beyond_2^+-27", "inverse_family_algorithm_region_corner", "same_function_again_with_operand_mapped_through_the_library", "argument_is_the_origin", nullptr};
+                                     "modulus_near_formula_switch", "moved_off_branch_cut", "modulus_beyond_2^+-27", "inverse_family_algorithm_region_corner", "same_function_again_with_operand_mapped_through_the_library", "argument_is_the_origin", "pow_real_large_or_integer_limit_exponent_base_near_unit_circle", nullptr};
 static char const *const metrics[] = {"field_err", "powlog_err", "trig_err", "itrig_err", "hyp_err", "ihyp_err", "realarg_err", "pairs_err", nullptr};
 static uint8_t const dict[] = {0, 1, 2, 3, 4, 5, 6, 7};
 static vp_info const info = {"C10", VP_CFG, "", labels, metrics, 96, dict, sizeof(dict)};
@@ -375,6 +375,7 @@ static void case_fn(Tape &t, Ctx &cx)
     g_origin = false;
     a_complex z = gen_z(t, cx, inter, wide), w = {1, 0};
     a_real s = 1;
+    bool big_exponent = false;
     bool side = t.coin();
     if ((f.family == 3 || f.family == 5) && t.u8() % 5 == 0)
     {
@@ -416,6 +417,30 @@ static void case_fn(Tape &t, Ctx &cx)
         s = modulus(t, cx);
         if (t.coin()) { s = -s; }
         if (f.growth == 3 && std::fabs(double(s)) > 8) { s = a_real(s > 0 ? 8 : -8) + a_real(double(t.u8()) / 64); }
+        if (f.growth == 3 && t.u8() % 6 == 0)
+        {
+            // large exponents, integral ones at the limits of the integer types in particular, with a base so close to the unit
+            // circle that the power stays representable: |z| = exp(q * EXPLIM / |s|), q in [-1, 1]; the angle is kept
+            static double const big[] = {2147483648.0, 2147483647.0, 2147483649.0, 32768.0, 65536.0, 4294967296.0, 4294967295.0, 1073741824.0,
+                                         16777216.0, 1e6, 127.0, 128.0, 255.0, 256.0, 1000.5, 8388608.0};
+            uint8_t bb = t.u8();
+            double e = big[bb % 16];
+            if (A_SIZE_REAL == 4 && e > 16777216.0 && double(float(e)) != e) { e = double(float(e)); }
+            s = a_real((bb & 16) ? -e : e);
+            LD q = (LD(t.u16()) / 32767.5L - 1) * 0.9L;
+            LD mnew = expl(q * EXPLIM / fabsl((LD)s));
+            LD mold = hypotl((LD)z.real, (LD)z.imag);
+            if (mold > 0)
+            {
+                z.real = a_real((LD)z.real * (mnew / mold));
+                z.imag = a_real((LD)z.imag * (mnew / mold));
+            }
+            // judged only where the linear condition estimate means something: |s| u well below 1 (a backward error of one
+            // rounding of z changes the power by the factor exp(|s| u); beyond that every result is as good as any other)
+            if (fabsl((LD)s) * U_ > ldexpl(1, -10)) { ++cx.rep->excluded; return; }
+            cx.label(L_BIG_EXPONENT);
+            big_exponent = true;
+        }
     }
     // exponential growth: keep the growing part inside the representable range
     if (f.growth == 1 || f.growth == 2)
@@ -452,6 +477,13 @@ static void case_fn(Tape &t, Ctx &cx)
     if (g_twin_mismatch) { cx.fail("twin:differs", "%s: the in-place / helper form %s disagrees with the out-of-place result (%.17g, %.17g)", f.name, g_twin_mismatch, double(r.real), double(r.imag)); }
     C got((LD)r.real, (LD)r.imag);
     LD k = kappa(f, Z, W, (LD)s, ref);
+    if (big_exponent)
+    {
+        // the difference quotient of kappa() (relative step 2^-30) wraps the angle many times for exponents of this size and
+        // saturates at 2|f|/step; the condition of z^s is known in closed form: |s| |f| for z, |s log z| |f| for s
+        LD kz = fabsl((LD)s) * std::abs(ref) * (1 + std::abs(std::log(Z)));
+        if (kz > k) { k = kz; }
+    }
     // results in or below the subnormal range of the type carry absolute, not relative precision
     LD denom = U_ * (std::abs(ref) + k) + TINY_ * 4;
     LD err = std::abs(got - ref);
